@@ -151,7 +151,9 @@ def model_and_replay(prop, wd, **kw):
     if len(drift) > 3:
         log("SPEC-DRIFT ... %d more behaviours differ" % (len(drift) - 3))
     return {"states": res["distinct"], "transitions": res["generated"], "behaviours": len(behaviours), "replayed": n, "drift": len(drift), "labels": labels, "tlc_seconds": round(dt, 1),
-            "inputs": [(b["A"], b["B"], b["op"]) for b in behaviours]}
+            "inputs": [(b["A"], b["B"], b["op"]) for b in behaviours],
+            # per input: does the TRANSCRIPTION of the pinned algorithm satisfy the strict reading of C14's last clause (no stale prev_in_result)?
+            "strict": [bool(b.get("strictcls", True)) for b in behaviours]}
 
 
 def inputs_as_sessions(inputs, path, tag):
